@@ -70,7 +70,9 @@ func changeRequestToTarget(req *http.Request, httpsDefault bool) error {
 	}
 
 	targetUrl.Path = req.URL.Path
+	targetUrl.RawPath = req.URL.RawPath // keep the client's own escaping (%2F, %41, ...) on the wire
 	targetUrl.RawQuery = req.URL.RawQuery
+	targetUrl.ForceQuery = req.URL.ForceQuery // keep a trailing '?' with an empty query
 	targetUrl.Fragment = req.URL.Fragment
 	req.URL = targetUrl
 	// Make sure this is unset for sending the request through a client
